@@ -717,7 +717,13 @@ def run(c):
     c.prove(extra=gen_delay_rows(c) + gen_delay_hist(c))
     rng = c.rng
     n = c.n(40, 500)
-    batch = [opt_instance(c, spec, rng) for spec in corpus()]
+    batch = []
+    for spec in corpus():
+        try:
+            batch.append(opt_instance(c, spec, rng))
+        except Exception as e:  # the implementation rejects a valid delay problem of the fixed corpus
+            c.fail("transcribe() of a corpus problem with delayed feedback raised %s" % type(e).__name__,
+                   {"spec": spec}, str(e)[:300])
     run_opt_batch(c, batch)
     c.hit("opt:corpus", len(batch))
     batch = []
